@@ -56,17 +56,20 @@ def hashjoin_op(sym, op, NL, NR, dom, compound=False, ragged=False, spelling='ke
                   'differs from the merge join as a multiset', ref, first)
 
 
-def hashantijoin_op(sym, NL, NR, dom, compound=False, spelling='key'):
+def hashantijoin_op(sym, NL, NR, dom, compound=False, spelling='key', rswap=False):
     L, R, lh, rh, kw = c06._build(sym, NL, NR, dom, compound, False, spelling, False, None)
+    tR = [rh] + R
+    if rswap:            # same key name at another column position on the right
+        tR = [list(reversed(rh))] + [list(reversed(r)) for r in R]
     lkeys = [c06._key(r, compound, None) for r in L]
     rkeys = [c06._key(r, compound, None) for r in R]
-    out = [tuple(r) for r in petl.hashantijoin([lh] + L, [rh] + R, **kw)]
+    out = [tuple(r) for r in petl.hashantijoin([lh] + L, tR, **kw)]
     check(len(out) >= 1 and out[0] == tuple(lh), 'header', out[:1])
     exp = [i for i in range(len(L)) if not any(c06._keys_eq(lkeys[i], rkeys[j], compound) for j in range(len(R)))]
     check(len(out) - 1 == len(exp), 'row count', out, exp)
     for r, i in zip(out[1:], exp):       # order of the streamed (left) side
         check(row_eq(r, L[i]), 'row / order', r, L[i])
-    ref = [tuple(r) for r in petl.antijoin([lh] + L, [rh] + R, **kw)]
+    ref = [tuple(r) for r in petl.antijoin([lh] + L, tR, **kw)]
     from engine.ref import multiset_eq
     check(ref[0] == out[0] and multiset_eq(ref[1:], out[1:]), 'differs from antijoin as a multiset', ref, out)
 
@@ -189,9 +192,11 @@ def jobs(tier):
             add(op, 3, 2, 'O', spelling='lrkey', prefix=True, miss='tag')
             add(op, 2, 3, 'I', spelling='natural')
     for (NL, NR, dom, kw) in ([(2, 2, 'I', {}), (2, 2, 'O', {}), (2, 1, 'M', {}), (1, 2, 'M', {}),
-                               (2, 1, 'Od2', dict(compound=True)), (2, 2, 'O', dict(spelling='lrkey'))] if q else
+                               (2, 1, 'Od2', dict(compound=True)), (2, 2, 'O', dict(spelling='lrkey')),
+                               (2, 2, 'O', dict(rswap=True)), (2, 1, 'Od2', dict(compound=True, rswap=True))] if q else
                               [(3, 3, 'I', {}), (3, 2, 'O', {}), (2, 3, 'O', {}), (2, 2, 'M', {}),
-                               (2, 2, 'Od2', dict(compound=True)), (3, 2, 'O', dict(spelling='lrkey'))]):
+                               (2, 2, 'Od2', dict(compound=True)), (3, 2, 'O', dict(spelling='lrkey')),
+                               (3, 2, 'O', dict(rswap=True))]):
         p = dict(NL=NL, NR=NR, dom=dom)
         p.update(kw)
         out.append(dict(name='hashantijoin/%dx%d/%s' % (NL, NR, dom) + ''.join('/%s=%s' % kv for kv in sorted(kw.items())),
